@@ -205,6 +205,15 @@ class _AttrCalls(ast.NodeTransformer):
         if isinstance(node.func, ast.Name) and node.func.id == "getattr" and len(node.args) == 2 and not node.keywords \
                 and isinstance(node.args[1], ast.Constant) and isinstance(node.args[1].value, str) and node.args[1].value.isidentifier():
             return ast.copy_location(ast.Attribute(value=node.args[0], attr=node.args[1].value, ctx=ast.Load()), node)
+        # N14: b"".join([a, b, c]) / "".join((a, b)) over a literal display of two or more items -> a + b + c
+        if isinstance(node.func, ast.Attribute) and node.func.attr == "join" and isinstance(node.func.value, ast.Constant) \
+                and node.func.value.value in (b"", "") and len(node.args) == 1 and not node.keywords \
+                and isinstance(node.args[0], (ast.List, ast.Tuple)) and len(node.args[0].elts) >= 2 \
+                and not any(isinstance(e, ast.Starred) for e in node.args[0].elts):
+            acc = node.args[0].elts[0]
+            for e in node.args[0].elts[1:]:
+                acc = ast.copy_location(ast.BinOp(left=acc, op=ast.Add(), right=e), node)
+            return acc
         # N8: sum([a, b, c]) over a literal display of two or more items -> a + b + c (numbers: the leading `0 +` of sum() changes nothing)
         if isinstance(node.func, ast.Name) and node.func.id == "sum" and len(node.args) == 1 and not node.keywords \
                 and isinstance(node.args[0], (ast.List, ast.Tuple)) and len(node.args[0].elts) >= 2 \
